@@ -128,7 +128,8 @@ def gen_dataset(rng, fmt):
     if layout == "station":
         style = rng.choice(["random", "random", "random", "column", "lattice"]) if fmt == "swan" else "random"
         if style == "random" or ns == 1:
-            lon = [round(rng.uniform(0, 359.9), rng.choice([0, 1, 3, 6, 9])) for _ in range(ns)]
+            west = rng.random() < 0.35   # stations given in the [-180, 180) convention, some of them west of Greenwich
+            lon = [round(rng.uniform(-180, 179.9) if west else rng.uniform(0, 359.9), rng.choice([0, 1, 3, 6, 9])) for _ in range(ns)]
             lat = [round(rng.uniform(-80, 80), rng.choice([0, 1, 3, 6, 9])) for _ in range(ns)]
         elif style == "column":  # same longitude, distinct latitudes in any order
             lon = [float(rng.randint(0, 359))] * ns
